@@ -94,6 +94,9 @@ macro_rules! d65_cyl {
             ("Hwb<DisplayP3>", Hwb<encoding::DisplayP3, $T>, K::Hwb(R::DISPLAY_P3)),
             ("LinAdobeRgb", Rgb<Linear<encoding::AdobeRgb>, $T>, K::Rgb(R::LIN_ADOBE)),
             ("Luma<Rec709>", Luma<encoding::Rec709, $T>, K::Luma(R::REC709)),
+            ("Luma<Rec2020>", Luma<encoding::Rec2020, $T>, K::Luma(R::REC2020)),
+            ("Luma<AdobeRgb>", Luma<encoding::AdobeRgb, $T>, K::Luma(R::ADOBE)),
+            ("Luma<DisplayP3>", Luma<encoding::DisplayP3, $T>, K::Luma(R::DISPLAY_P3)),
         ]);
     };
 }
@@ -140,6 +143,7 @@ macro_rules! dci_group {
             ("Hsv<DciP3Plus>", Hsv<encoding::DciP3Plus<encoding::P3Gamma>, $T>, K::Hsv(R::DCI_P3_PLUS)),
             ("Luma<DciP3>", Luma<encoding::DciP3, $T>, K::Luma(R::DCI_P3)),
             ("LinLuma<DciP3>", Luma<Linear<encoding::DciP3>, $T>, K::Luma(R::LIN_DCI_P3)),
+            ("Luma<DciP3Plus>", Luma<encoding::DciP3Plus<encoding::P3Gamma>, $T>, K::Luma(R::DCI_P3_PLUS)),
         ]);
     };
 }
